@@ -31,6 +31,7 @@ type walkCfg struct {
 	Restart int   `json:"restart"`
 	Renom   int   `json:"renom"`
 	Data    int   `json:"data"`
+	Close   int   `json:"close"`
 	Steps   int   `json:"steps"`
 	Advance []int `json:"advance"`
 	Horizon int   `json:"horizon"`
@@ -217,6 +218,7 @@ type side struct {
 	tids                   map[string]int // raw tid -> n (requests issued by this agent)
 	raw                    map[int][12]byte
 	nomCtr                 uint32
+	lastRole, lastGath     string
 	conn                   *ice.Conn
 	reads                  []dread // payloads the application reader got since the last snapshot
 	wrPk, wrBy, rdPk, rdBy int
@@ -372,7 +374,7 @@ func runSession(t *testing.T, cfg *sessCfg, job *sessJob, rng *mrand.Rand, sched
 			tb = 150
 		}
 		ag.VerifSetTieBreaker(tb)
-		sd := &side{ag: ag, nomCtr: cfg.NomBase, gen: 1, rgen: 1, ufrag: map[int]string{1: u}, pwd: map[int]string{1: p}, tb: tb, tids: map[string]int{}, raw: map[int][12]byte{}}
+		sd := &side{ag: ag, nomCtr: cfg.NomBase, gen: 1, rgen: 0, ufrag: map[int]string{1: u}, pwd: map[int]string{1: p}, tb: tb, tids: map[string]int{}, raw: map[int][12]byte{}}
 		_ = ag.OnCandidate(func(c ice.Candidate) {
 			sd.cbMu.Lock()
 			if c == nil {
@@ -437,20 +439,8 @@ func runSession(t *testing.T, cfg *sessCfg, job *sessJob, rng *mrand.Rand, sched
 	for _, u := range cfg.Unreach {
 		unreach[u] = true
 	}
-	for _, n := range []string{"A", "B"} {
-		if err := S[n].ag.GatherCandidates(); err != nil {
-			t.Fatal(err)
-		}
-	}
-	synctest.Wait()
-	for _, n := range []string{"A", "B"} {
-		for _, sg := range cfg.Presignal[n] {
-			_ = S[n].ag.AddRemoteCandidate(mkCand(sg[0], sg[1]))
-			synctest.Wait()
-		}
-	}
 	start := func(n string) {
-		u, p := cred(other(n), 1)
+		u, p := cred(other(n), S[other(n)].gen)
 		var err error
 		if cfg.Roles[n] == "controlling" {
 			S[n].conn, err = S[n].ag.StartDial(u, p)
@@ -474,39 +464,11 @@ func runSession(t *testing.T, cfg *sessCfg, job *sessJob, rng *mrand.Rand, sched
 			}
 		}()
 	}
-	// Restart while the agent is still New (candidates gathered and signalled, Dial/Accept not yet called):
-	// whatever the previous generation held must be gone; then gather and signal again so the walk starts as usual
 	preResidue := map[string][]int{"A": {0, 0, 0, 0, 0}, "B": {0, 0, 0, 0, 0}}
-	if cfg.PreRestart {
-		for _, n := range []string{"A", "B"} {
-			u, p := cred(n, 1)
-			if err := S[n].ag.Restart(u, p); err != nil {
-				t.Fatal(err)
-			}
-			synctest.Wait()
-			sn := S[n].ag.VerifSnapshot()
-			sel := 0
-			if sn.Sel != 0 {
-				sel = 1
-			}
-			preResidue[n] = []int{len(sn.Pairs), len(sn.Locals), len(sn.Remotes), len(sn.Pend) + sn.ByID, sel}
-			_ = S[n].drainCB
-			if err := S[n].ag.GatherCandidates(); err != nil {
-				t.Fatal(err)
-			}
-			synctest.Wait()
-			for _, sg := range cfg.Presignal[n] {
-				_ = S[n].ag.AddRemoteCandidate(mkCand(sg[0], sg[1]))
-				synctest.Wait()
-			}
-		}
-	}
-	start("A")
-	synctest.Wait()
-	start("B")
-	synctest.Wait()
+	started := map[string]bool{}
+	closed := map[string]bool{}
 	t0 := time.Now()
-	gathNew := map[string]bool{}
+	gathNew := map[string]bool{"A": true, "B": true}
 
 	genOf := func(agent, uf string) int {
 		for g, u := range S[agent].ufrag {
@@ -614,6 +576,11 @@ func runSession(t *testing.T, cfg *sessCfg, job *sessJob, rng *mrand.Rand, sched
 		res := map[string]any{}
 		for _, n := range []string{"A", "B"} {
 			s := S[n].ag.VerifSnapshot()
+			if !s.OK { // the agent is closed: the loop refuses the snapshot task; everything has been released
+				s.Role, s.Gath, s.Conn = S[n].lastRole, S[n].lastGath, "Closed"
+			} else {
+				S[n].lastRole, S[n].lastGath = s.Role, s.Gath
+			}
 			locs := []string{}
 			for _, l := range s.Locals {
 				locs = append(locs, sym(l.Addr))
@@ -786,7 +753,7 @@ func runSession(t *testing.T, cfg *sessCfg, job *sessJob, rng *mrand.Rand, sched
 		idBase[n] = int(sn.NextPairID) - len(sn.Pairs)
 	}
 	emit(map[string]any{"ev": "Reset", "cfg": job.Cfg, "preResidue": preResidue, "idBase": idBase, "post": snap()})
-	loss, dup, inj, rst, renoms, badRenoms, dataOps, pidCtr := 0, 0, 0, 0, 0, 0, 0, 0
+	loss, dup, inj, rst, renoms, badRenoms, dataOps, pidCtr, closes := 0, 0, 0, 0, 0, 0, 0, 0, 0
 	type act struct {
 		ev, ag string
 		i      int
@@ -796,6 +763,16 @@ func runSession(t *testing.T, cfg *sessCfg, job *sessJob, rng *mrand.Rand, sched
 		rec := map[string]any{"ev": c.ev}
 		take := func(i int) fl { f := flight[i]; flight = append(flight[:i:i], flight[i+1:]...); return f }
 		switch c.ev {
+		case "Start":
+			rec["ag"] = c.ag
+			S[c.ag].rgen = S[other(c.ag)].gen
+			started[c.ag] = true
+			start(c.ag)
+		case "Close":
+			rec["ag"] = c.ag
+			closed[c.ag] = true
+			closes++
+			_ = S[c.ag].ag.Close()
 		case "Tick":
 			S[c.ag].ticks++
 			rec["ag"] = c.ag
@@ -959,6 +936,52 @@ func runSession(t *testing.T, cfg *sessCfg, job *sessJob, rng *mrand.Rand, sched
 		rec["post"] = snap()
 		emit(rec)
 	}
+	// ---- set-up prefix, as ordinary logged actions: gather, signal, (Restart while New), Dial/Accept.
+	// Random walks run it in a shuffled order half of the time (every order is a legal use of the API).
+	sigIndex := func(n string, sg [2]string) int {
+		for i, x := range cfg.Signal[n] {
+			if x == sg {
+				return i
+			}
+		}
+
+		return -1
+	}
+	var prefix []act
+	for _, n := range []string{"A", "B"} {
+		prefix = append(prefix, act{ev: "Gather", ag: n})
+	}
+	for _, n := range []string{"A", "B"} {
+		for _, sg := range cfg.Presignal[n] {
+			if i := sigIndex(n, sg); i >= 0 {
+				prefix = append(prefix, act{ev: "AddRemote", ag: n, i: i})
+			}
+		}
+	}
+	if cfg.PreRestart {
+		for _, n := range []string{"A", "B"} {
+			prefix = append(prefix, act{ev: "Restart", ag: n}, act{ev: "Gather", ag: n})
+			for _, sg := range cfg.Presignal[n] {
+				if i := sigIndex(n, sg); i >= 0 {
+					prefix = append(prefix, act{ev: "AddRemote", ag: n, i: i})
+				}
+			}
+		}
+	} else if sched == nil && rng.Intn(2) == 0 {
+		rng.Shuffle(len(prefix), func(i, j int) { prefix[i], prefix[j] = prefix[j], prefix[i] })
+	}
+	prefix = append(prefix, act{ev: "Start", ag: "A"}, act{ev: "Start", ag: "B"})
+	if !cfg.PreRestart && sched == nil && rng.Intn(4) == 0 { // Dial/Accept somewhere in the middle of the set-up
+		k := rng.Intn(len(prefix) - 1)
+		prefix[k], prefix[len(prefix)-2] = prefix[len(prefix)-2], prefix[k]
+	}
+	for _, c := range prefix {
+		if c.ev == "Gather" && !gathNew[c.ag] {
+			continue
+		}
+		do(c)
+	}
+	rst = 0
 	nsteps := cfg.Walk.Steps
 	if sched != nil {
 		nsteps = len(sched)
@@ -968,7 +991,13 @@ func runSession(t *testing.T, cfg *sessCfg, job *sessJob, rng *mrand.Rand, sched
 		if sched == nil {
 			var acts []act
 			for _, n := range []string{"A", "B"} {
-				if S[n].ticks < cfg.Walk.Ticks {
+				if closed[n] {
+					continue
+				}
+				if closes < cfg.Walk.Close && rng.Intn(10) == 0 {
+					acts = append(acts, act{ev: "Close", ag: n})
+				}
+				if S[n].ticks < cfg.Walk.Ticks && started[n] {
 					acts = append(acts, act{ev: "Tick", ag: n}, act{ev: "Tick", ag: n})
 				}
 				if rst < cfg.Walk.Restart {
@@ -994,7 +1023,7 @@ func runSession(t *testing.T, cfg *sessCfg, job *sessJob, rng *mrand.Rand, sched
 						acts = append(acts, act{ev: "Renominate", ag: n, i: i})
 					}
 				}
-				if dataOps < cfg.Walk.Data {
+				if dataOps < cfg.Walk.Data && started[n] {
 					for _, ln := range []int{5, 19, 20, 1200, 8191, 8192} {
 						acts = append(acts, act{ev: "Write", ag: n, i: ln})
 					}
@@ -1010,9 +1039,15 @@ func runSession(t *testing.T, cfg *sessCfg, job *sessJob, rng *mrand.Rand, sched
 				}
 			}
 			for i := range dflight {
+				if dst, _ := dflight[i].m["dst"].(string); agentAddr[dst] && !started[ownerOfLocal(local(symAddr[dst]))] {
+					continue
+				}
 				acts = append(acts, act{ev: "DeliverData", i: i}, act{ev: "DeliverData", i: i}, act{ev: "DeliverData", i: i}, act{ev: "DropData", i: i})
 			}
 			for i := range flight {
+				if to := ownerOfLocal(local(flight[i].g.to)); agentAddr[flight[i].m.Dst] && !started[to] {
+					continue // the receive loop of a candidate starts with Dial/Accept
+				}
 				acts = append(acts, act{ev: "Deliver", i: i}, act{ev: "Deliver", i: i}, act{ev: "Deliver", i: i})
 				if loss < cfg.Walk.Loss && reachable(flight[i].m) { // unreachable datagrams can only vanish
 					acts = append(acts, act{ev: "Drop", i: i})
@@ -1185,7 +1220,7 @@ func runSession(t *testing.T, cfg *sessCfg, job *sessJob, rng *mrand.Rand, sched
 		}
 		do(c)
 	}
-	if job.Drain {
+	if job.Drain && !closed["A"] && !closed["B"] {
 		// fair, loss-free suffix, made of ordinary logged actions: re-signal what is missing (a restart of one
 		// side is followed by the other side's restart, as a WebRTC stack does), then round-robin
 		// tick A, tick B, deliver everything
